@@ -388,6 +388,29 @@ let queue_case (c : string) : string =
 
 let engine_queue (cases : string) = iter_lines cases (fun c -> print_endline (queue_case c))
 
+(* ---------------------------------------------------------------- relay engine *)
+let relay_case (c : string) : string =
+  let ops = Str.split (Str.regexp_string " | ") c in
+  match ops with
+  | [] -> "BADCASE"
+  | hdr :: ops ->
+    let plen = int_of_string (List.hd (split_ws hdr)) in
+    let st = ref (new_relay (z_of_int plen)) in
+    let ok = ref true in
+    List.iter (fun op ->
+      match split_ws op with
+      | ["R"; h] -> st := rstep (rstep !st (RLine (bytes_of_hex h))) (RRecv !ok)
+      | ["T"] -> st := rstep (rstep !st (RTick !ok)) (RTick !ok)
+      | ["F"] -> ok := false
+      | _ -> ()) ops;
+    st := rstep (rstep !st (RTick !ok)) (RTick !ok);
+    let sent = (!st).r_sent in
+    Printf.sprintf "sent=%s relayed=%d long=%d packets=%d notes=-"
+      (if sent = [] then "-" else String.concat "," (List.map hex_of_bytes sent))
+      (int_of_n (!st).r_relayed) (int_of_n (!st).r_long) (int_of_n (!st).r_packets)
+
+let engine_relay (cases : string) = iter_lines cases (fun c -> print_endline (relay_case c))
+
 (* ---------------------------------------------------------------- model-internal self test:
    fsm_get_mapping against first_match / most_specific on an exhaustive small scope
    (a TEST of the theorem statements, not a proof) *)
@@ -440,5 +463,6 @@ let () =
   | _ :: "mapper" :: cases :: hxout :: _ -> engine_mapper cases hxout
   | _ :: "pipeline" :: cases :: hxout :: _ -> engine_pipeline cases hxout
   | _ :: "queue" :: cases :: _ -> engine_queue cases
+  | _ :: "relay" :: cases :: _ -> engine_relay cases
   | _ :: "selftest-fsm" :: n :: _ -> selftest_fsm (int_of_string n)
   | _ -> prerr_endline "usage: runner <engine> <casefile> [hx output]"; exit 2
